@@ -331,6 +331,28 @@ func (ft *funcTrans) backEdge(from *ssa.BasicBlock, li *loopInfo, edgeCond strin
 		o.Focus = fmt.Sprintf("inv:%d:%d", li.ordinal, k+1)
 		o.FocusSet = relatedInvariants(li, k)
 	}
+	if len(li.lc.IterPost) > 0 {
+		env2 := ft.namesAt(ft.cur)
+		for k2, v2 := range env {
+			if _, ok := env2[k2]; !ok {
+				env2[k2] = v2
+			}
+		}
+		// x_head / athead(e): the value the loop variable x (the expression e) had when this iteration started
+		henv := ft.loopEnv(li, func(phi *ssa.Phi) Term { return ft.vals[phi].T })
+		for k2, v2 := range henv {
+			if !strings.HasPrefix(k2, "#") {
+				if _, ok := env2[k2+"_head"]; !ok {
+					env2[k2+"_head"] = v2
+				}
+			}
+		}
+		ec2 := &evalCtx{w: w, pkg: ft.pkgTypes(), env: env2, st: ft.curSt, old: ft.entry, lets: ft.lets(), cells: ft.loopCells(li, env2), ft: ft, headSt: li.hdrState, headEnv: henv}
+		for k, c := range li.lc.IterPost {
+			t := ec2.evalBool(c.E)
+			ft.obligation("iterpost", fmt.Sprintf("loop%d.iterpost%d@b%d", li.ordinal, k+1, from.Index), c.Src, t.S)
+		}
+	}
 	if len(li.lc.OnSkip) > 0 {
 		// an iteration that wrote nothing the loop can write: every heap of the loop's modification
 		// set is what it was at the loop head and nothing was allocated (iterations usually end in one
